@@ -169,6 +169,17 @@ func (c *Ctx) Count(key string, n int) {
 	c.mu.Unlock()
 }
 
+// Require names counters that must be non-zero in the merged result of all
+// shards; otherwise the run is inconclusive (checked by the runner).
+func (c *Ctx) Require(keys ...string) {
+	c.mu.Lock()
+	if c.info["require"] != "" {
+		c.info["require"] += "||"
+	}
+	c.info["require"] += strings.Join(keys, "||")
+	c.mu.Unlock()
+}
+
 func (c *Ctx) Info(k, v string) {
 	c.mu.Lock()
 	c.info[k] = v
